@@ -82,6 +82,13 @@ def gen(seed: int, i: int, tier: str) -> dict:
                 f"{rng.choice(G.FIELD_VALUES['valid'][2])};{rng.choice(G.FIELD_VALUES['valid'][3])};"
                 f"{rng.choice(G.FIELD_VALUES['valid'][4])};{G.payload(rng, semi=True)}\n")
         r = rng.random()
+        if rng.random() < 0.12:
+            # internal and stream commands address child 255 whatever their type - the exception is the id
+            # request/response pair and nothing else, in every protocol version
+            base = (f"{rng.randint(0, 255)};{rng.choice([0, 1, 7, 100, 254])};{rng.choice([3, 3, 4])};{rng.choice([0, 1])};"
+                    f"{rng.randint(0, 40)};{rng.choice(['', '1', 'x'])}\n")
+            lines.append([base, "grid"])
+            continue
         if rng.random() < 0.15:
             # id request / response may carry any child id (the cross-field exception)
             base = f"{rng.randint(0, 255)};{rng.randint(0, 255)};3;{rng.choice([0, 1])};{rng.choice([3, 4])};{rng.randint(1, 254)}\n"
